@@ -582,3 +582,46 @@ type parentRoleFull interface {
 	SendEvent(event.Event)
 	GetName() string
 }
+
+// TabulateFsm evaluates the fsm.FSM that newEnvironment really builds: for every (state, event)
+// it forces the state, asks Can(event) and, if allowed, fires the event on an environment with an
+// empty workflow and reads the state reached. Returns rows "eventIdx srcIdx dstIdx".
+func TabulateFsm(work string) ([][3]int, error) {
+	if err := Setup(work); err != nil {
+		return nil, err
+	}
+	var rows [][3]int
+	for ei, ev := range events {
+		for si, st := range states {
+			env, err := environment.NewEnvironmentForVerif(map[string]string{}, uid.New())
+			if err != nil {
+				return nil, err
+			}
+			root := workflow.NewAggregatorRole("", nil)
+			if err := yaml.Unmarshal([]byte("name: root\nroles: []\n"), root); err != nil {
+				return nil, err
+			}
+			workflow.SetParentForVerif(root, env.WfAdapterForVerif())
+			env.SetWorkflowForVerif(root)
+			env.Sm.SetState(st)
+			can := env.Sm.Can(ev)
+			err = env.TryTransition(environment.NewScriptedTransition(ev, taskman, func(*environment.Environment) error { return nil }))
+			if can != (err == nil) {
+				return nil, fmt.Errorf("fsm: Can(%s) in %s = %v but firing it gave %v", ev, st, can, err)
+			}
+			if err == nil {
+				di := -1
+				for i, s := range states {
+					if s == env.CurrentState() {
+						di = i
+					}
+				}
+				rows = append(rows, [3]int{ei, si, di})
+			}
+		}
+	}
+	return rows, nil
+}
+
+func StateNames() []string { return states }
+func EventNames() []string { return events }
